@@ -161,7 +161,14 @@ func TestVerif_C12_TecdsaSigningStates(t *testing.T) {
 				p := c12SigningPayload(gm.kind, gm.idx, gm.session)
 				return p, p.Type(), true, ""
 			},
-			receive: receive,
+			receive:  receive,
+			register: RegisterUnmarshallers,
+			ident: func(m interface{}) string {
+				if v, ok := m.(message); ok {
+					return fmt.Sprintf("%s/%d/%q", v.Type(), v.SenderID(), v.SessionID())
+				}
+				return fmt.Sprintf("%T", m)
+			},
 			stored: func() map[int][]interface{} {
 				out := map[int][]interface{}{}
 				for k, typ := range c12SigningTypes {
